@@ -66,6 +66,7 @@ fn main() {
         "C13" => c13::main(&args[1..]),
         "C14" => c14::main(&args[1..]),
         "C14-child" => c14::child(&args[1..]),
+        "C03-growth-child" => c03::growth_child(),
         "C15" => c15::main(&args[1..]),
         "C16" => c16::main(&args[1..]),
         "C17" => c17::main(&args[1..]),
